@@ -165,7 +165,7 @@ def conn_scripts():
 
 def shards(tier, seed):
     out = []
-    nscripts = 5 if tier == "quick" else 32
+    nscripts = 5 if tier == "quick" else 48
     nshards = 14 if tier == "quick" else 48
     for j in range(nshards):
         out.append({"kind": "rw", "scripts": nscripts, "j": j})
